@@ -76,4 +76,546 @@ theorem eval_chainOf_eq_lex (lt : V → V → Bool) (hirr : ∀ v, lt v v = fals
       = lex lt (keyOf f :: (g :: rest).map keyOf) a b
     rw [eval_ifEq, lex_cons, ih, hr]
 
+/-! ### `lex` is the declarative lexicographic order `LexLess` -/
+
+theorem lex_append_of_eq (lt : V → V → Bool) (pre ks : List Key) (a b : Rec V)
+    (h : ∀ x ∈ pre, a x.accessor = b x.accessor) : lex lt (pre ++ ks) a b = lex lt ks a b := by
+  induction pre with
+  | nil => rfl
+  | cons k pre ih =>
+    rw [List.cons_append, lex_cons, if_pos (h k (by simp))]
+    exact ih (fun x hx => h x (by simp [hx]))
+
+/-- the executable spec decides the property text's "first differing key decides" -/
+theorem lex_iff_LexLess (lt : V → V → Bool) (hirr : ∀ v, lt v v = false) (ks : List Key) (a b : Rec V) :
+    lex lt ks a b = true ↔ LexLess lt ks a b := by
+  constructor
+  · induction ks with
+    | nil => intro h; cases h
+    | cons k ks ih =>
+      rw [lex_cons]
+      by_cases e : a k.accessor = b k.accessor
+      · rw [if_pos e]; intro h
+        obtain ⟨pre, k', post, h1, h2, h3⟩ := ih h
+        refine ⟨k :: pre, k', post, by rw [h1]; rfl, ?_, h3⟩
+        intro x hx
+        rcases List.mem_cons.1 hx with rfl | hx
+        · exact e
+        · exact h2 x hx
+      · rw [if_neg e]; intro h
+        exact ⟨[], k, ks, rfl, by simp, h⟩
+  · rintro ⟨pre, k, post, rfl, h2, h3⟩
+    rw [lex_append_of_eq lt pre _ a b h2, lex_cons, if_neg (Val.less_ne lt hirr _ _ h3)]
+    exact h3
+
+/-! ### strict weak order -/
+
+theorem Val.less_asymm (lt : V → V → Bool) (hirr : ∀ v, lt v v = false)
+    (htr : ∀ a b c, lt a b = true → lt b c = true → lt a c = true) (x y : Val V)
+    (h : Val.less lt x y = true) : Val.less lt y x = false := by
+  cases x <;> cases y <;> simp_all [Val.less]
+  · rename_i v w
+    cases hw : lt w v
+    · rfl
+    · have := htr v w v h hw; rw [hirr] at this; cases this
+
+theorem Val.less_trans (lt : V → V → Bool)
+    (htr : ∀ a b c, lt a b = true → lt b c = true → lt a c = true) (x y z : Val V)
+    (h1 : Val.less lt x y = true) (h2 : Val.less lt y z = true) : Val.less lt x z = true := by
+  cases x <;> cases y <;> cases z <;> simp_all [Val.less]
+  · exact htr _ _ _ h1 h2
+
+/-- `Less(i, i)` is false — for every key list and every record, typed or not. -/
+theorem lex_irrefl (lt : V → V → Bool) (ks : List Key) (a : Rec V) : lex lt ks a a = false := by
+  induction ks with
+  | nil => rfl
+  | cons k ks ih => rw [lex_cons, if_pos rfl]; exact ih
+
+theorem lex_asymm (lt : V → V → Bool) (ho : StrictTotal lt) (ks : List Key) (a b : Rec V)
+    (h : lex lt ks a b = true) : lex lt ks b a = false := by
+  induction ks with
+  | nil => rfl
+  | cons k ks ih =>
+    rw [lex_cons] at h ⊢
+    by_cases e : a k.accessor = b k.accessor
+    · rw [if_pos e] at h; rw [if_pos e.symm]; exact ih h
+    · rw [if_neg e] at h; rw [if_neg (fun e' => e e'.symm)]
+      exact Val.less_asymm lt ho.irrefl ho.trans _ _ h
+
+theorem lex_trans (lt : V → V → Bool) (ho : StrictTotal lt) (ks : List Key) (a b c : Rec V)
+    (h1 : lex lt ks a b = true) (h2 : lex lt ks b c = true) : lex lt ks a c = true := by
+  induction ks with
+  | nil => cases h1
+  | cons k ks ih =>
+    rw [lex_cons] at h1 h2 ⊢
+    by_cases e1 : a k.accessor = b k.accessor
+    · rw [if_pos e1] at h1
+      by_cases e2 : b k.accessor = c k.accessor
+      · rw [if_pos e2] at h2; rw [if_pos (e1.trans e2)]; exact ih h1 h2
+      · rw [if_neg e2] at h2; rw [if_neg (by rw [e1]; exact e2), e1]; exact h2
+    · rw [if_neg e1] at h1
+      by_cases e2 : b k.accessor = c k.accessor
+      · rw [if_pos e2] at h2; rw [if_neg (by rw [← e2]; exact e1), ← e2]; exact h1
+      · rw [if_neg e2] at h2
+        have h3 := Val.less_trans lt ho.trans _ _ _ h1 h2
+        rw [if_neg (Val.less_ne lt ho.irrefl _ _ h3)]; exact h3
+
+/-- records that agree on every key -/
+def KeyEq (ks : List Key) (a b : Rec V) : Prop := ∀ k ∈ ks, a k.accessor = b k.accessor
+
+theorem Val.less_total (lt : V → V → Bool) (ho : StrictTotal lt) (x y : Val V)
+    (hk : x.isFlag = y.isFlag) (hne : x ≠ y) : Val.less lt x y = true ∨ Val.less lt y x = true := by
+  cases x <;> cases y <;> simp_all [Val.less, Val.isFlag]
+  · rename_i p q; cases p <;> cases q <;> simp_all
+  · exact ho.total _ _ hne
+
+/-- trichotomy on well-typed records: smaller, larger, or equal on every key -/
+theorem lex_trichotomy (lt : V → V → Bool) (ho : StrictTotal lt) (ks : List Key) (a b : Rec V)
+    (ha : WellTyped ks a) (hb : WellTyped ks b) :
+    lex lt ks a b = true ∨ lex lt ks b a = true ∨ KeyEq ks a b := by
+  induction ks with
+  | nil => right; right; intro k hk; cases hk
+  | cons k ks ih =>
+    have ha' := (wellTyped_cons k ks a).1 ha
+    have hb' := (wellTyped_cons k ks b).1 hb
+    rw [lex_cons, lex_cons]
+    by_cases e : a k.accessor = b k.accessor
+    · rw [if_pos e, if_pos e.symm]
+      rcases ih ha'.2 hb'.2 with h | h | h
+      · exact Or.inl h
+      · exact Or.inr (Or.inl h)
+      · right; right; intro x hx
+        rcases List.mem_cons.1 hx with rfl | hx
+        · exact e
+        · exact h x hx
+    · rw [if_neg e, if_neg (fun e' => e e'.symm)]
+      rcases Val.less_total lt ho _ _ (by rw [ha'.1, hb'.1]) e with h | h
+      · exact Or.inl h
+      · exact Or.inr (Or.inl h)
+
+theorem lex_congr_left (lt : V → V → Bool) (ks : List Key) (a b c : Rec V) (h : KeyEq ks a b) :
+    lex lt ks a c = lex lt ks b c := by
+  induction ks with
+  | nil => rfl
+  | cons k ks ih =>
+    rw [lex_cons, lex_cons, h k (by simp)]
+    rw [ih (fun x hx => h x (by simp [hx]))]
+
+theorem lex_congr_right (lt : V → V → Bool) (ks : List Key) (a b c : Rec V) (h : KeyEq ks a b) :
+    lex lt ks c a = lex lt ks c b := by
+  induction ks with
+  | nil => rfl
+  | cons k ks ih =>
+    rw [lex_cons, lex_cons, h k (by simp)]
+    rw [ih (fun x hx => h x (by simp [hx]))]
+
+/-- incomparable under `lex` = equal on every key (well-typed records) -/
+theorem lex_incomp_iff (lt : V → V → Bool) (ho : StrictTotal lt) (ks : List Key) (a b : Rec V)
+    (ha : WellTyped ks a) (hb : WellTyped ks b) :
+    (lex lt ks a b = false ∧ lex lt ks b a = false) ↔ KeyEq ks a b := by
+  constructor
+  · rintro ⟨h1, h2⟩
+    rcases lex_trichotomy lt ho ks a b ha hb with h | h | h
+    · rw [h1] at h; cases h
+    · rw [h2] at h; cases h
+    · exact h
+  · intro h
+    constructor
+    · rw [lex_congr_left lt ks a b b h]; exact lex_irrefl lt ks b
+    · rw [lex_congr_right lt ks a b b h]; exact lex_irrefl lt ks b
+
+/-- transitivity of incomparability ("transitive equivalence") -/
+theorem lex_incomp_trans (lt : V → V → Bool) (ho : StrictTotal lt) (ks : List Key) (a b c : Rec V)
+    (ha : WellTyped ks a) (hb : WellTyped ks b) (hc : WellTyped ks c)
+    (hab : lex lt ks a b = false ∧ lex lt ks b a = false)
+    (hbc : lex lt ks b c = false ∧ lex lt ks c b = false) :
+    lex lt ks a c = false ∧ lex lt ks c a = false := by
+  have e1 := (lex_incomp_iff lt ho ks a b ha hb).1 hab
+  have e2 := (lex_incomp_iff lt ho ks b c hb hc).1 hbc
+  exact (lex_incomp_iff lt ho ks a c ha hc).2 (fun k hk => (e1 k hk).trans (e2 k hk))
+
+/-- negative transitivity: what a comparison sort actually relies on -/
+theorem lex_neg_trans (lt : V → V → Bool) (ho : StrictTotal lt) (ks : List Key) (a b c : Rec V)
+    (hb : WellTyped ks b) (hc : WellTyped ks c)
+    (h1 : lex lt ks b a = false) (h2 : lex lt ks c b = false) : lex lt ks c a = false := by
+  cases h : lex lt ks c a
+  · rfl
+  · exfalso
+    rcases lex_trichotomy lt ho ks b c hb hc with h3 | h3 | h3
+    · have := lex_trans lt ho ks b c a h3 h; rw [h1] at this; cases this
+    · rw [h2] at h3; cases h3
+    · rw [← lex_congr_left lt ks b c a h3, h1] at h; cases h
+
+/-! ### normal form used by the program-text comparison is sound -/
+
+theorem normalize_eval (lt : V → V → Bool) (c : Cmp) (a b : Rec V) :
+    c.normalize.eval lt a b = c.eval lt a b := by
+  induction c with
+  | ret e => rfl
+  | ifEq acc body e ih =>
+    simp only [Cmp.normalize]
+    rw [eval_ifEq, eval_ifEq, ih]
+    by_cases h : a acc = b acc
+    · rw [if_pos h, if_pos h]
+    · rw [if_neg h, if_neg h]
+      cases e with
+      | lt x => rfl
+      | notIAndJ x => rfl
+      | selJ x =>
+        by_cases hx : x = acc
+        · subst hx
+          simp only [if_true, RetExpr.eval]
+          cases ha : a x <;> cases hb : b x <;> simp_all [Val.truth]
+          rename_i p q; cases p <;> cases q <;> simp_all
+        · simp [hx]
+
+/-! ### sorting by priority: the result does not depend on the sorting algorithm -/
+
+theorem sortP_perm (l : List SFD) : (sortP l).Perm l := List.mergeSort_perm l _
+
+theorem sortP_pairwise_le (l : List SFD) :
+    (sortP l).Pairwise (fun x y => x.priority ≤ y.priority) := by
+  have h := List.pairwise_mergeSort (le := fun (a b : SFD) => decide (a.priority ≤ b.priority))
+    (by intro a b c; simp; exact Int.le_trans)
+    (by intro a b; simp; exact Int.le_total _ _) l
+  exact h.imp (by intro a b; simp)
+
+theorem pairwise_lt_of_le_nodup (l : List SFD)
+    (h : l.Pairwise (fun x y => x.priority ≤ y.priority)) (hn : (l.map (·.priority)).Nodup) :
+    l.Pairwise (fun x y => x.priority < y.priority) := by
+  induction l with
+  | nil => exact List.Pairwise.nil
+  | cons a l ih =>
+    rw [List.pairwise_cons] at h
+    rw [List.map_cons, List.nodup_cons] at hn
+    rw [List.pairwise_cons]
+    refine ⟨?_, ih h.2 hn.2⟩
+    intro b hb
+    have hle := h.1 b hb
+    have hne : a.priority ≠ b.priority := by
+      intro e; apply hn.1; rw [e]; exact List.mem_map.2 ⟨b, hb, rfl⟩
+    omega
+
+/-- Two priority-ascending arrangements of the same fields are the same list: whatever
+`sort.Sort` does internally, with distinct priorities its result is determined. -/
+theorem sorted_unique (l₁ l₂ : List SFD) (hp : l₁.Perm l₂)
+    (h₁ : l₁.Pairwise (fun x y => x.priority < y.priority))
+    (h₂ : l₂.Pairwise (fun x y => x.priority < y.priority)) : l₁ = l₂ :=
+  List.Perm.eq_of_pairwise (le := fun (x y : SFD) => x.priority < y.priority)
+    (by intro a b _ _ h1 h2; omega) h₁ h₂ hp
+
+/-! ### grouping by sorter name (`createSorterDesc`) -/
+
+/-- map lookup in the association list -/
+def lookupD (r : String) : Descs → Option (List SFD)
+  | [] => none
+  | (k, fs) :: rest => if k = r then some fs else lookupD r rest
+
+theorem lookupD_addFD (d : Descs) (fd : SFD) (r : String) :
+    lookupD r (addFD d fd) =
+      if fd.sorter = r then some (sortP ((lookupD r d).getD [] ++ [fd])) else lookupD r d := by
+  induction d with
+  | nil =>
+    simp only [addFD, lookupD]
+    split <;> simp
+  | cons e rest ih =>
+    obtain ⟨k, fs⟩ := e
+    by_cases hk : k = fd.sorter
+    · subst hk
+      by_cases hr : fd.sorter = r
+      · simp [addFD, lookupD, hr]
+      · simp [addFD, lookupD, hr]
+    · have hk' : ¬ fd.sorter = k := fun e => hk e.symm
+      by_cases hkr : k = r
+      · subst hkr; simp [addFD, lookupD, hk, hk']
+      · simp [addFD, lookupD, hk, hkr, ih]
+
+theorem taggedFor_cons (fd : SFD) (fds : List SFD) (r : String) :
+    taggedFor (fd :: fds) r = if fd.sorter = r then fd :: taggedFor fds r else taggedFor fds r := by
+  simp only [taggedFor, List.filter_cons]
+  by_cases h : fd.sorter = r <;> simp [h]
+
+/-- after the loop, the group of every sorter is an arrangement of exactly the descriptors tagged
+for it (plus what the group held before) -/
+theorem lookupD_foldl (fds : List SFD) (d : Descs) (r : String) :
+    ((lookupD r (fds.foldl addFD d)).getD []).Perm ((lookupD r d).getD [] ++ taggedFor fds r) ∧
+    (lookupD r (fds.foldl addFD d) = none ↔ lookupD r d = none ∧ taggedFor fds r = []) := by
+  induction fds generalizing d with
+  | nil => simp [taggedFor]
+  | cons fd fds ih =>
+    rw [List.foldl_cons, taggedFor_cons]
+    have h := ih (addFD d fd)
+    rw [lookupD_addFD] at h
+    by_cases hr : fd.sorter = r
+    · rw [if_pos hr] at h ⊢
+      constructor
+      · refine h.1.trans ?_
+        simp only [Option.getD_some]
+        refine ((sortP_perm _).append_right _).trans ?_
+        simp
+      · constructor
+        · intro hn; have := h.2.1 hn; simp at this
+        · intro hn; simp at hn
+    · rw [if_neg hr] at h ⊢
+      exact h
+
+theorem group_perm (fds : List SFD) (r : String) :
+    ((lookupD r (groupAll fds)).getD []).Perm (taggedFor fds r) := by
+  simpa [groupAll, lookupD] using (lookupD_foldl fds [] r).1
+
+theorem group_none_iff (fds : List SFD) (r : String) :
+    lookupD r (groupAll fds) = none ↔ taggedFor fds r = [] := by
+  simpa [groupAll, lookupD] using (lookupD_foldl fds [] r).2
+
+theorem keys_addFD (d : Descs) (fd : SFD) :
+    (addFD d fd).map (·.1) =
+      if fd.sorter ∈ d.map (·.1) then d.map (·.1) else d.map (·.1) ++ [fd.sorter] := by
+  induction d with
+  | nil => simp [addFD]
+  | cons e rest ih =>
+    obtain ⟨k, fs⟩ := e
+    by_cases hk : k = fd.sorter
+    · simp [addFD, hk]
+    · simp only [addFD, if_neg hk, List.map_cons, ih, List.mem_cons]
+      have hk' : ¬ fd.sorter = k := fun e => hk e.symm
+      by_cases hm : fd.sorter ∈ rest.map (·.1)
+      · simp [hm]
+      · simp [hm, hk']
+
+theorem keys_nodup_addFD (d : Descs) (fd : SFD) (h : (d.map (·.1)).Nodup) :
+    ((addFD d fd).map (·.1)).Nodup := by
+  rw [keys_addFD]
+  split
+  · exact h
+  · rename_i hm
+    rw [List.nodup_append]
+    refine ⟨h, by simp, ?_⟩
+    intro a ha b hb
+    simp at hb; subst hb
+    intro e; subst e; exact hm ha
+
+theorem keys_nodup_foldl (fds : List SFD) (d : Descs) (h : (d.map (·.1)).Nodup) :
+    ((fds.foldl addFD d).map (·.1)).Nodup := by
+  induction fds generalizing d with
+  | nil => exact h
+  | cons fd fds ih => rw [List.foldl_cons]; exact ih _ (keys_nodup_addFD d fd h)
+
+theorem mem_lookupD (d : Descs) (h : (d.map (·.1)).Nodup) (k : String) (fs : List SFD)
+    (hm : (k, fs) ∈ d) : lookupD k d = some fs := by
+  induction d with
+  | nil => cases hm
+  | cons e rest ih =>
+    obtain ⟨k', fs'⟩ := e
+    rw [List.map_cons, List.nodup_cons] at h
+    rcases List.mem_cons.1 hm with e | hm
+    · cases e; simp [lookupD]
+    · have hne : k' ≠ k := by
+        intro e; subst e; exact h.1 (List.mem_map.2 ⟨(k', fs), hm, rfl⟩)
+      simp only [lookupD, if_neg hne]
+      exact ih h.2 hm
+
+/-- every group the loop leaves behind is an arrangement of the descriptors tagged for its
+sorter, and is not empty -/
+theorem group_entry (fds : List SFD) (k : String) (fs : List SFD) (hm : (k, fs) ∈ groupAll fds) :
+    fs.Perm (taggedFor fds k) ∧ taggedFor fds k ≠ [] := by
+  have hl := mem_lookupD (groupAll fds) (keys_nodup_foldl fds [] (by simp)) k fs hm
+  have hp := group_perm fds k
+  rw [hl] at hp
+  refine ⟨hp, ?_⟩
+  intro e
+  have := (group_none_iff fds k).2 e
+  rw [hl] at this; cases this
+
+/-! ### validation -/
+
+theorem validate_ok_iff (fs : List SFD) :
+    validate fs = .ok () ↔ fs ≠ [] ∧ (fs.map (·.priority)).Nodup := by
+  unfold validate
+  by_cases h0 : fs.length = 0
+  · have : fs = [] := List.eq_nil_of_length_eq_zero h0
+    simp [this]
+  · have : fs ≠ [] := fun e => h0 (by rw [e]; rfl)
+    by_cases hn : (fs.map (·.priority)).Nodup
+    · simp [h0, hn, this]
+    · simp [h0, hn]
+
+theorem validate_dup (fs : List SFD) (h0 : fs ≠ []) (hn : ¬ (fs.map (·.priority)).Nodup) :
+    validate fs = .error .dupPriority := by
+  unfold validate
+  have : ¬ fs.length = 0 := fun e => h0 (List.eq_nil_of_length_eq_zero e)
+  simp [this, hn]
+
+theorem validateAll_ok_iff (d : Descs) :
+    validateAll d = .ok () ↔ ∀ e ∈ d, validate e.2 = .ok () := by
+  induction d with
+  | nil => simp [validateAll]
+  | cons e rest ih =>
+    obtain ⟨k, fs⟩ := e
+    simp only [validateAll, List.mem_cons, forall_eq_or_imp]
+    cases hv : validate fs with
+    | error x => simp [bind, Except.bind]
+    | ok u => cases u; simp [bind, Except.bind, ih]
+
+/-! ### the generator as a whole -/
+
+/-- the quantifier's "any assignment of distinct priorities": per sorter, no priority twice -/
+def Distinct (fds : List SFD) : Prop := ∀ r, ((taggedFor fds r).map (·.priority)).Nodup
+
+theorem findSorter_map (ret : Bool → String → RetExpr) (d : Descs) (raw : String) :
+    findSorter raw (d.map (fun e => (⟨e.1, blockWith ret (priorityTree e.2)⟩ : Sorter))) =
+      (lookupD raw d).map (fun fs => (⟨raw, blockWith ret (priorityTree fs)⟩ : Sorter)) := by
+  induction d with
+  | nil => rfl
+  | cons e rest ih =>
+    obtain ⟨k, fs⟩ := e
+    simp only [List.map_cons, findSorter, lookupD]
+    by_cases h : k = raw
+    · subst h; simp
+    · simp [h, ih]
+
+theorem validateAll_of_distinct (fds : List SFD) (hd : Distinct fds) :
+    validateAll (groupAll fds) = .ok () := by
+  rw [validateAll_ok_iff]
+  rintro ⟨k, fs⟩ hm
+  obtain ⟨hp, hne⟩ := group_entry fds k fs hm
+  rw [validate_ok_iff]
+  constructor
+  · intro e; subst e; exact hne hp.nil_eq.symm
+  · exact ((hp.map (·.priority)).nodup_iff).2 (hd k)
+
+theorem generateFromSFDs_ok (ret : Bool → String → RetExpr) (fds : List SFD) (hd : Distinct fds) :
+    generateFromSFDs ret fds =
+      .ok ((groupAll fds).map (fun e => (⟨e.1, blockWith ret (priorityTree e.2)⟩ : Sorter))) := by
+  simp [generateFromSFDs, validateAll_of_distinct fds hd, bind, Except.bind, pure, Except.pure]
+
+theorem generateWith_of_sfds (ret : Bool → String → RetExpr) (fields : List Field) (fds : List SFD)
+    (hf : allSFDs fields = .ok fds) : generateWith ret fields = generateFromSFDs ret fds := by
+  simp [generateWith, hf, bind, Except.bind]
+
+/-- with distinct priorities, the fields of a sorter have exactly one ascending arrangement, and
+it is the one `PriorityTree` uses -/
+theorem keyOrder_is_sortP (fds : List SFD) (hd : Distinct fds) (raw : String) (fs : List SFD)
+    (hp : fs.Perm (taggedFor fds raw)) (ks : List Key) (hk : IsKeyOrder fds raw ks) :
+    ks = (sortP fs).map keyOf := by
+  obtain ⟨l, hl, hs, rfl⟩ := hk
+  have hperm : (sortP fs).Perm l := ((sortP_perm fs).trans hp).trans hl.symm
+  have hn : ((sortP fs).map (·.priority)).Nodup :=
+    (((sortP_perm fs).trans hp).map (·.priority)).nodup_iff.2 (hd raw)
+  have := sorted_unique (sortP fs) l hperm
+    (pairwise_lt_of_le_nodup _ (sortP_pairwise_le fs) hn) hs
+  rw [this]
+
+theorem isKeyOrder_exists (fds : List SFD) (hd : Distinct fds) (raw : String) :
+    ∃ ks, IsKeyOrder fds raw ks := by
+  refine ⟨(sortP (taggedFor fds raw)).map keyOf, sortP (taggedFor fds raw), sortP_perm _, ?_, rfl⟩
+  exact pairwise_lt_of_le_nodup _ (sortP_pairwise_le _)
+    (((sortP_perm _).map (·.priority)).nodup_iff.2 (hd raw))
+
+theorem isKeyOrder_unique (fds : List SFD) (hd : Distinct fds) (raw : String) (ks₁ ks₂ : List Key)
+    (h₁ : IsKeyOrder fds raw ks₁) (h₂ : IsKeyOrder fds raw ks₂) : ks₁ = ks₂ := by
+  rw [keyOrder_is_sortP fds hd raw _ (List.Perm.refl _) ks₁ h₁,
+    keyOrder_is_sortP fds hd raw _ (List.Perm.refl _) ks₂ h₂]
+
+/-- **C08, main statement (descriptor level).**  For every list of field descriptors with
+distinct priorities per sorter: generation succeeds, produces a sorter for exactly the names that
+occur in a tag, and the generated `Less` of sorter `raw` equals lexicographic comparison of the
+fields tagged for `raw`, in ascending priority, on all well-typed slice elements. -/
+theorem eval_genChain_eq_lex (lt : V → V → Bool) (hirr : ∀ v, lt v v = false)
+    (fds : List SFD) (hd : Distinct fds) :
+    ∃ ss, generateFromSFDs retOf fds = .ok ss ∧ ∀ raw,
+      (taggedFor fds raw = [] → findSorter raw ss = none) ∧
+      (taggedFor fds raw ≠ [] → ∃ s, findSorter raw ss = some s ∧ s.raw = raw ∧
+        ∀ ks, IsKeyOrder fds raw ks → ∀ a b : Rec V, WellTyped ks a → WellTyped ks b →
+          s.less.eval lt a b = lex lt ks a b) := by
+  refine ⟨_, generateFromSFDs_ok retOf fds hd, ?_⟩
+  intro raw
+  rw [findSorter_map]
+  constructor
+  · intro h; rw [(group_none_iff fds raw).2 h]; rfl
+  · intro h
+    cases hl : lookupD raw (groupAll fds) with
+    | none => exact absurd ((group_none_iff fds raw).1 hl) h
+    | some fs =>
+      have hp := group_perm fds raw
+      rw [hl] at hp
+      simp only [Option.getD_some] at hp
+      refine ⟨_, rfl, rfl, ?_⟩
+      intro ks hk a b ha hb
+      have e := keyOrder_is_sortP fds hd raw fs hp ks hk
+      subst e
+      have hne : sortP fs ≠ [] := by
+        intro e
+        have := ((sortP_perm fs).trans hp)
+        rw [e] at this
+        exact h this.nil_eq.symm
+      exact eval_chainOf_eq_lex lt hirr (sortP fs) hne a b ha hb
+
+/-- the same from the struct definition (field list with raw tag strings) -/
+theorem eval_generate_eq_lex (lt : V → V → Bool) (hirr : ∀ v, lt v v = false)
+    (fields : List Field) (fds : List SFD) (hf : allSFDs fields = .ok fds) (hd : Distinct fds) :
+    ∃ ss, generate fields = .ok ss ∧ ∀ raw,
+      (taggedFor fds raw = [] → findSorter raw ss = none) ∧
+      (taggedFor fds raw ≠ [] → ∃ s, findSorter raw ss = some s ∧ s.raw = raw ∧
+        ∀ ks, IsKeyOrder fds raw ks → ∀ a b : Rec V, WellTyped ks a → WellTyped ks b →
+          s.less.eval lt a b = lex lt ks a b) := by
+  unfold generate
+  rw [generateWith_of_sfds retOf fields fds hf]
+  exact eval_genChain_eq_lex lt hirr fds hd
+
+/-- a malformed tag is reported, whatever else the struct holds -/
+theorem tag_error_reported (ret : Bool → String → RetExpr) (fields : List Field) (e : GenErr)
+    (hf : allSFDs fields = .error e) : generateWith ret fields = .error e := by
+  simp [generateWith, hf, bind, Except.bind]
+
+theorem lookupD_mem (d : Descs) (k : String) (fs : List SFD) (h : lookupD k d = some fs) :
+    (k, fs) ∈ d := by
+  induction d with
+  | nil => cases h
+  | cons e rest ih =>
+    obtain ⟨k', fs'⟩ := e
+    simp only [lookupD] at h
+    by_cases hk : k' = k
+    · rw [if_pos hk] at h; cases h; subst hk; exact List.mem_cons_self
+    · rw [if_neg hk] at h; exact List.mem_cons_of_mem _ (ih h)
+
+theorem validateAll_dup (d : Descs) (hne : ∀ e ∈ d, e.2 ≠ [])
+    (hdup : ∃ e ∈ d, ¬ (e.2.map (·.priority)).Nodup) : validateAll d = .error .dupPriority := by
+  induction d with
+  | nil => obtain ⟨e, he, _⟩ := hdup; cases he
+  | cons e rest ih =>
+    obtain ⟨k, fs⟩ := e
+    simp only [validateAll]
+    by_cases hn : (fs.map (·.priority)).Nodup
+    · have hv : validate fs = .ok () := (validate_ok_iff fs).2 ⟨hne (k, fs) List.mem_cons_self, hn⟩
+      rw [hv]
+      simp only [bind, Except.bind]
+      apply ih (fun e he => hne e (List.mem_cons_of_mem _ he))
+      obtain ⟨e, he, hd⟩ := hdup
+      rcases List.mem_cons.1 he with rfl | he
+      · exact absurd hn hd
+      · exact ⟨e, he, hd⟩
+    · rw [validate_dup fs (hne (k, fs) List.mem_cons_self) hn]; rfl
+
+/-- two fields of one sorter with the same priority: the generator refuses (for every rendering
+of the template) -/
+theorem dup_priority_rejected (ret : Bool → String → RetExpr) (fds : List SFD)
+    (hdup : ¬ Distinct fds) : generateFromSFDs ret fds = .error .dupPriority := by
+  have : ∃ r, ¬ ((taggedFor fds r).map (·.priority)).Nodup := Classical.not_forall.1 hdup
+  obtain ⟨r, hr⟩ := this
+  have hv : validateAll (groupAll fds) = .error .dupPriority := by
+    apply validateAll_dup
+    · rintro ⟨k, fs⟩ hm e
+      obtain ⟨hp, hne⟩ := group_entry fds k fs hm
+      simp only at e; subst e; exact hne hp.nil_eq.symm
+    · have hne : taggedFor fds r ≠ [] := by intro e; rw [e] at hr; exact hr List.nodup_nil
+      cases hl : lookupD r (groupAll fds) with
+      | none => exact absurd ((group_none_iff fds r).1 hl) hne
+      | some fs =>
+        have hp := group_perm fds r
+        rw [hl] at hp
+        simp only [Option.getD_some] at hp
+        refine ⟨(r, fs), lookupD_mem _ _ _ hl, ?_⟩
+        intro hn; exact hr (((hp.map (·.priority)).nodup_iff).1 hn)
+  simp [generateFromSFDs, hv, bind, Except.bind]
+
 end GSort
